@@ -259,8 +259,72 @@ def _truth_atoms(t):
 
 
 def _zero_infeasible(cfg, func, holder, atom):
-    """dominated by `not _abort_at_level(k, <atom>)` with constant k >= 1"""
-    txt = norm(atom)
+    """value-range dataflow: at the truthiness test the optional integer is either None or >= 1"""
+    from ..cfg import forward_dataflow
+    key = norm(atom)
+    TOPR = (True, True, None)  # (can be None, can be int, lower bound of the int part)
+
+    def lb_max(lb, k):
+        return k if lb is None else max(lb, k)
+
+    def refine(cond, outcome, st):
+        nt = none_test(cond)
+        if nt is not None and nt[0] == key:
+            is_none = nt[1] == outcome
+            return (True, False, None) if is_none else (False, st[1], st[2])
+        if isinstance(cond, ast.Call) and _last_name(cond.func) == "_abort_at_level" and len(cond.args) == 2 and norm(cond.args[1]) == key \
+                and isinstance(cond.args[0], ast.Constant) and isinstance(cond.args[0].value, int):
+            k = cond.args[0].value
+            if outcome is False:
+                return (st[0], st[1], lb_max(st[2], k))  # None or level <= X
+            return (False, True, st[2])  # abort true: X is an int below the level
+        if isinstance(cond, ast.Compare) and len(cond.ops) == 1:
+            l, r, op = cond.left, cond.comparators[0], type(cond.ops[0])
+            if norm(r) == key and isinstance(l, ast.Constant) and isinstance(l.value, int):
+                # k OP X  ->  X OP' k
+                op = {ast.Gt: ast.Lt, ast.Lt: ast.Gt, ast.GtE: ast.LtE, ast.LtE: ast.GtE, ast.Eq: ast.Eq, ast.NotEq: ast.NotEq}.get(op)
+                l, r = r, l
+            if norm(l) == key and isinstance(r, ast.Constant) and isinstance(r.value, int) and op is not None:
+                k = r.value
+                if not outcome:
+                    op = {ast.Gt: ast.LtE, ast.LtE: ast.Gt, ast.Lt: ast.GtE, ast.GtE: ast.Lt, ast.Eq: ast.NotEq, ast.NotEq: ast.Eq}[op]
+                lb = st[2]
+                if op is ast.GtE:
+                    lb = lb_max(lb, k)
+                elif op is ast.Gt:
+                    lb = lb_max(lb, k + 1)
+                elif op is ast.Eq:
+                    lb = lb_max(lb, k)
+                return (False, True, lb)  # an ordering comparison with None would have raised
+        if norm(cond) == key:
+            if outcome:
+                return (False, True, lb_max(st[2], 1) if st[2] is None or st[2] >= 0 else st[2])
+            return st
+        return st
+
+    def transfer(n, st):
+        if st is None:
+            return None
+        if n.kind == "guard":
+            return refine(n.cond, n.outcome, st)
+        a = n.ast
+        if n.kind == "stmt" and isinstance(a, (ast.Assign, ast.AugAssign, ast.AnnAssign)):
+            targets = a.targets if isinstance(a, ast.Assign) else [a.target]
+            if any(norm(t) == key for t in targets for t in ast.walk(t) if isinstance(t, (ast.Name, ast.Attribute))):
+                return TOPR
+        if n.kind == "loopin" and any(norm(t) == key for t in ast.walk(a.target) if isinstance(t, (ast.Name, ast.Attribute))):
+            return TOPR
+        return st
+
+    def join(x, y):
+        if x is None:
+            return y
+        if y is None:
+            return x
+        lbs = [v[2] for v in (x, y) if v[1]]
+        lb = None if any(b_ is None for b_ in lbs) or not lbs else min(lbs)
+        return (x[0] or y[0], x[1] or y[1], lb)
+    instate = forward_dataflow(cfg, TOPR, transfer, None, join)
     cns = []
     for cn in cfg.nodes:
         root = cn.cond if cn.kind == "test" else cn.ast
@@ -279,18 +343,11 @@ def _zero_infeasible(cfg, func, holder, atom):
     if not cns:
         return False
     for cn in cns:
-        ok = False
-        for c, o, g in cfg.guards_of(cn):
-            if o is False and isinstance(c, ast.Call) and _last_name(c.func) == "_abort_at_level" and len(c.args) == 2 \
-                    and isinstance(c.args[0], ast.Constant) and isinstance(c.args[0].value, int) and c.args[0].value >= 1 \
-                    and norm(c.args[1]) == txt:
-                # no reassignment of the variable between the guard and the use
-                if isinstance(atom, ast.Name):
-                    mid = cfg.between(g, cn)
-                    if any(_assigns(m, atom.id) for m in mid):
-                        continue
-                ok = True
-        if not ok:
+        st = instate.get(cn.id)
+        if st is None:
+            continue  # unreachable
+        can_none, can_int, lb = st
+        if can_int and not (lb is not None and lb >= 1):
             return False
     return True
 
